@@ -901,6 +901,11 @@ pub fn run_c12(p: &Params) -> Report {
                 }
             }
         }
+        // (d) the export plugin with `lifecyclesToKeep` (every 16th case): on top of the user filters (which may carry a
+        // lifecycle criterion themselves) only messages of the named lifecycle are exported
+        if i % 16 == 8 {
+            export_lifecycles_to_keep_case(&mut rep, &mut rng, i);
+        }
         let en_pos = fs.iter().any(|f| f.enabled && f.kind == 0);
         let en_neg = fs.iter().any(|f| f.enabled && f.kind == 1);
         if en_pos && en_neg && !exp.is_empty() && exp.len() < n {
@@ -917,4 +922,133 @@ pub fn run_c12(p: &Params) -> Report {
         }
     }
     rep
+}
+
+/// Export plugin front door with `lifecyclesToKeep`: lifecycles come from the real detector on a clean scenario (boots well
+/// separated), the entry names exactly one of them by ECU and a window 1 us around its final start/end.
+/// Specification: exported = (messages of that lifecycle) AND (user filter set keeps the message); in order, after one info message.
+fn export_lifecycles_to_keep_case(rep: &mut Report, rng: &mut Rng, case_no: u64) {
+    use adlt::plugins::plugin::Plugin;
+    let scen = crate::lcgen::gen_clean(rng, false);
+    let input = crate::lcgen::to_dlt(&scen, case_no as u32);
+    if input.is_empty() {
+        return;
+    }
+    let (lcs_r, lcs_w) = crate::lc::new_table();
+    let (tx, rx) = std::sync::mpsc::channel();
+    for m in &input {
+        tx.send(m.clone()).unwrap();
+    }
+    drop(tx);
+    let detected: std::cell::RefCell<Vec<DltMessage>> = std::cell::RefCell::new(Vec::with_capacity(input.len()));
+    let w = match crate::guard::catch(|| {
+        adlt::lifecycle::parse_lifecycles_buffered_from_stream(lcs_w, rx, &|m| {
+            detected.borrow_mut().push(m);
+            Ok(())
+        })
+    }) {
+        Ok(w) => w,
+        Err(_) => return, // the detector's behaviour is C05's business
+    };
+    let msgs = detected.into_inner();
+    // final table
+    let mut table: Vec<(u32, adlt::dlt::DltChar4, u64, u64, bool)> = vec![];
+    if let Some(rr) = lcs_r.read() {
+        for (id, b) in &rr {
+            if let Some(lc) = b.get_one() {
+                table.push((*id, lc.ecu, lc.start_time, lc.end_time(), lc.is_resume()));
+            }
+        }
+    }
+    table.sort_by_key(|t| t.0);
+    let cands: Vec<&(u32, adlt::dlt::DltChar4, u64, u64, bool)> = table.iter().filter(|t| !t.4 && t.2 > 1).collect();
+    if cands.is_empty() {
+        drop(w);
+        return;
+    }
+    let target = **rng.pick(&cands);
+    // the window must select exactly this lifecycle of its ECU
+    let in_window = table.iter().filter(|t| t.1 == target.1 && !t.4 && t.2 >= target.2 - 1 && t.3 <= target.3 + 1).count();
+    if in_window != 1 {
+        rep.inc("export_lifecycles_to_keep_ambiguous_skipped");
+        drop(w);
+        return;
+    }
+    // user filters without payload criteria (the scenario messages carry no text); negative filters often carry a lifecycle criterion
+    let all_ids: Vec<u32> = table.iter().map(|t| t.0).collect();
+    let nf = rng.usize_below(4);
+    let fs: Vec<AbsFilter> = (0..nf)
+        .map(|_| {
+            let kind = *rng.pick(&[0u8, 1, 1, 3]);
+            let mut f = gen_filter(rng, kind);
+            f.payload = None;
+            f.ignore_case = false;
+            f.enabled = !rng.chance(1, 8);
+            f.lifecycles = match rng.below(4) {
+                0 => None,
+                1 => Some(vec![]),
+                2 => Some(vec![target.0]),
+                _ => Some(all_ids.iter().copied().filter(|_| rng.chance(1, 2)).collect()),
+            };
+            f
+        })
+        .collect();
+    let dir = match tempfile::tempdir() {
+        Ok(d) => d,
+        Err(_) => {
+            drop(w);
+            return;
+        }
+    };
+    let path = dir.path().join("export.dlt");
+    let ecu_str = String::from_utf8_lossy(&target.1.as_buf()[..target.1.as_buf().iter().position(|c| *c == 0).unwrap_or(4)]).to_string();
+    let cfg = json!({"name":"Export","exportFileName": path.to_string_lossy(), "filters": fs.iter().map(to_json_value).collect::<Vec<_>>(),
+        "lifecyclesToKeep":[{"ecu": ecu_str, "startTime": target.2 - 1, "endTime": target.3 + 1}]});
+    let rp = || json!({"kind":"c12-export-lifecyclesToKeep","config": cfg, "scenario": crate::lcgen::scenario_json(&scen), "target_lifecycle": target.0});
+    let mut plugin = match crate::guard::catch(|| adlt::plugins::export::ExportPlugin::from_json(cfg.as_object().unwrap()).map_err(|e| e.to_string())) {
+        Ok(Ok(p)) => p,
+        Ok(Err(e)) => {
+            rep.violation("front-end:export-plugin-rejected", e, rp());
+            drop(w);
+            return;
+        }
+        Err(pi) => {
+            rep.violation(&pi.class(), format!("panic at {}:{} {}", pi.file, pi.line, pi.msg), rp());
+            drop(w);
+            return;
+        }
+    };
+    plugin.set_lifecycle_read_handle(&lcs_r);
+    let (tx, rx) = std::sync::mpsc::channel();
+    for m in &msgs {
+        tx.send(m.clone()).unwrap();
+    }
+    drop(tx);
+    let r = crate::guard::catch(|| adlt::plugins::plugins_process_msgs(rx, &|_m| Ok(()), vec![Box::new(plugin)]));
+    drop(w);
+    match r {
+        Err(pi) => {
+            rep.violation(&pi.class(), format!("export plugin panicked at {}:{} {}", pi.file, pi.line, pi.msg), rp());
+        }
+        Ok(plugins) => {
+            drop(plugins);
+            let bytes = std::fs::read(&path).unwrap_or_default();
+            let mut exp_bytes = Vec::new();
+            let mut nkept = 0;
+            for m in &msgs {
+                if m.lifecycle == target.0 && spec_keep(&fs, m, "", true) {
+                    m.to_write(&mut exp_bytes).unwrap();
+                    nkept += 1;
+                }
+            }
+            rep.inc("export_lifecycles_to_keep_files_compared");
+            rep.add("export_lifecycles_to_keep_messages_kept", nkept);
+            let ok = if nkept == 0 { crate::refdlt::decode_all(&bytes, false).map(|v| v.len() <= 1).unwrap_or(false) } else { bytes.len() >= exp_bytes.len() && bytes[bytes.len() - exp_bytes.len()..] == exp_bytes[..] };
+            let head_ok = nkept == 0 || crate::refdlt::decode_all(&bytes[..bytes.len().saturating_sub(exp_bytes.len())], false).map(|v| v.len() == 1).unwrap_or(false);
+            if !ok || !head_ok {
+                let n_file = crate::refdlt::decode_all(&bytes, false).map(|v| v.len()).unwrap_or(usize::MAX);
+                rep.violation("export-plugin:lifecyclesToKeep-selection", format!("the exported file holds {} messages (incl. the info message); specification: {} messages of lifecycle {} that the filter set keeps", n_file, nkept, target.0), rp());
+            }
+        }
+    }
 }
